@@ -4,15 +4,19 @@ use super::indexes::*;
 use super::logs::*;
 use crate::configs::system::SystemConfig;
 use crate::streaming::batching::batch_accumulator::BatchAccumulator;
+use crate::streaming::batching::message_batch::RETAINED_BATCH_HEADER_LEN;
 use crate::streaming::segments::*;
+use crate::streaming::utils::file;
 use error_set::ErrContext;
 use iggy::error::IggyError;
 use iggy::utils::byte_size::IggyByteSize;
 use iggy::utils::expiry::IggyExpiry;
 use iggy::utils::timestamp::IggyTimestamp;
 use std::sync::atomic::{AtomicU64, Ordering};
+use std::io::SeekFrom;
 use std::sync::Arc;
 use tokio::fs::remove_file;
+use tokio::io::{AsyncReadExt, AsyncSeekExt};
 use tracing::{info, warn};
 
 #[derive(Debug)]
@@ -121,6 +125,8 @@ impl Segment {
             self.log_path, self.index_path
         );
 
+        self.discard_incomplete_tail().await?;
+
         if self.log_reader.is_none() || self.index_reader.is_none() {
             self.initialize_writing().await?;
             self.initialize_reading().await?;
@@ -191,6 +197,85 @@ impl Segment {
             .fetch_add(messages_count, Ordering::SeqCst);
         self.messages_count_of_parent_partition
             .fetch_add(messages_count, Ordering::SeqCst);
+
+        Ok(())
+    }
+
+    /// After a crash in the middle of a write the two files of a segment can be out of step: a
+    /// batch (or a part of it) in the log without its index entry, a torn index entry, or - under
+    /// no-wait confirmation - index entries whose batch never reached the log. Only the batches
+    /// that are complete in the log and have an index entry are kept.
+    async fn discard_incomplete_tail(&self) -> Result<(), IggyError> {
+        if !file::exists(&self.log_path).await.unwrap_or(false)
+            || !file::exists(&self.index_path).await.unwrap_or(false)
+        {
+            return Ok(());
+        }
+
+        let indexes = tokio::fs::read(&self.index_path)
+            .await
+            .with_error_context(|error| format!("Failed to read index file for {self}. {error}"))
+            .map_err(|_| IggyError::CannotReadFile)?;
+        let mut log_file = file::open(&self.log_path)
+            .await
+            .with_error_context(|error| format!("Failed to open log file for {self}. {error}"))
+            .map_err(|_| IggyError::CannotReadFile)?;
+        let log_size = tokio::fs::metadata(&self.log_path)
+            .await
+            .with_error_context(|error| format!("Failed to read log metadata for {self}. {error}"))
+            .map_err(|_| IggyError::CannotReadFileMetadata)?
+            .len();
+
+        let mut valid_indexes = indexes.len() as u64 / INDEX_SIZE;
+        let mut valid_log_size = 0;
+        while valid_indexes > 0 {
+            let index_start = ((valid_indexes - 1) * INDEX_SIZE) as usize;
+            let position =
+                u32::from_le_bytes(indexes[index_start + 4..index_start + 8].try_into().unwrap())
+                    as u64;
+            if position + RETAINED_BATCH_HEADER_LEN <= log_size {
+                let mut header = [0u8; RETAINED_BATCH_HEADER_LEN as usize];
+                log_file
+                    .seek(SeekFrom::Start(position))
+                    .await
+                    .map_err(|_| IggyError::CannotReadFile)?;
+                log_file
+                    .read_exact(&mut header)
+                    .await
+                    .map_err(|_| IggyError::CannotReadFile)?;
+                let batch_length = u32::from_le_bytes(header[8..12].try_into().unwrap()) as u64;
+                let batch_end = position + RETAINED_BATCH_HEADER_LEN + batch_length;
+                if batch_end <= log_size {
+                    valid_log_size = batch_end;
+                    break;
+                }
+            }
+            valid_indexes -= 1;
+        }
+
+        let valid_index_size = valid_indexes * INDEX_SIZE;
+        if valid_index_size < indexes.len() as u64 {
+            warn!(
+                "Index file {} has {} bytes without a complete batch in the log, truncating it to {valid_index_size} bytes.",
+                self.index_path,
+                indexes.len() as u64 - valid_index_size
+            );
+            file::truncate(&self.index_path, valid_index_size)
+                .await
+                .with_error_context(|error| format!("Failed to truncate index file for {self}. {error}"))
+                .map_err(|_| IggyError::CannotWriteToFile)?;
+        }
+        if valid_log_size < log_size {
+            warn!(
+                "Log file {} has {} bytes after its last indexed batch, truncating it to {valid_log_size} bytes.",
+                self.log_path,
+                log_size - valid_log_size
+            );
+            file::truncate(&self.log_path, valid_log_size)
+                .await
+                .with_error_context(|error| format!("Failed to truncate log file for {self}. {error}"))
+                .map_err(|_| IggyError::CannotWriteToFile)?;
+        }
 
         Ok(())
     }
